@@ -463,7 +463,8 @@ class EndpointResponseHandlerGenerator:
                 if resp_ir.status_code.startswith("2"):
                     # Other 2xx success responses - resolve each response individually
                     if not resp_ir.content:
-                        writer.write_line("return None")
+                        # An async generator (streaming operation) must not return a value
+                        writer.write_line("return" if strategy.is_streaming else "return None")
                     else:
                         # Resolve the specific return type for this response
                         resp_schema = self._get_response_schema(resp_ir)
